@@ -7,7 +7,11 @@ sequence and the argument lists (`make_function`: first argument, then the captu
 
 Workloads: (a) the repository's corpus; (b) generated 2-4-module projects; (c) strings of length 0-4 over the
 format-special alphabet, each as a literal in three roles, batched and bisected to single literals;
-(d) generated control-flow programs (mv/cf.py)."""
+(d) generated control-flow programs (mv/cf.py); (e) histories: several compilations into ONE directory (source
+replaced by a shorter / equally long / longer one, also ending exactly on a function or record boundary of its
+predecessor; entry module and imported module; 2 and 3 steps) — `execute` must behave like `run` of the current
+source in a fresh directory (stale output files); (f) large files: 9-140 KiB of bytecode made of 2-/3-/4-byte
+characters in alignment variants so that a character straddles every multiple of 4096 of the file."""
 import json
 import os
 
@@ -36,6 +40,17 @@ def cf_programs(ctx, n):
     return progs
 
 
+def random_histories(prop, gen, n):
+    """Histories over generated programs: [longer, shorter] and [p, q, r] written to the same path."""
+    items = []
+    for i in range(min(n, len(gen) // 3)):
+        p, q, r = (gen[3 * i + j][1] for j in range(3))
+        two = sorted([p, q], key=lambda f: -len(f["main.ms"]))
+        items.append((prop, "random", "cf", "longer_then_shorter", {"steps": two}))
+        items.append((prop, "random", "cf", "three_steps", {"steps": [p, q, r]}))
+    return items
+
+
 def run(ctx):
     out = core.Outcome()
     avoid = twin.known_kinds(ctx, PROP)
@@ -48,6 +63,8 @@ def run(ctx):
     cov = twin.collect_programs(PROP, out, items, sig_of)
     scov, chosen = twin.collect_strings(PROP, ctx, out)
     cov.update(scov)
+    cov.update(twin.collect_histories(PROP, out, random_histories(PROP, gen, ctx.n(15, 300))))
+    cov.update(twin.collect_large(PROP, out, ctx.quick))
     out.coverage.update(cov)
     out.coverage["avoidance_rules"] = (
         ["programs whose emitted instruction arguments contain a character of a class listed in known_findings.json "
@@ -89,6 +106,10 @@ def replay(path):
     with open(os.path.join(path, "case.json")) as f:
         case = json.load(f)
     w = case["witness"]
+    if "history" in w:
+        res = twin.replay_history(PROP, w)
+        print(json.dumps({k: v for k, v in res.items() if k != "witness"}, indent=1, default=str, ensure_ascii=False))
+        return 1 if (res["devs"] or res["status"] != "compared") else 0
     files = twin.read_files(os.path.join(path, "files"))
     status, devs, a, b = twin.compare(PROP, files, w.get("entry", "main.ms"), keep_artefacts=True)
     print(json.dumps({"signature": case["signature"], "status": status, "deviations": devs, "run": a.brief(),
